@@ -538,6 +538,18 @@ func cmdCheck(argv []string) int {
 		}
 	}
 	sort.Strings(names)
+	// "a return is reachable" is met by ONE satisfiable returning path
+	for _, g := range groups {
+		if !strings.HasSuffix(g.Name, "/cover/a-return-is-reachable") || g.Result == "discharged" {
+			continue
+		}
+		for _, ob := range obls {
+			if ob.Name == g.Name && ob.Result == "unsat" {
+				g.Result, g.Fail = "discharged", nil
+				break
+			}
+		}
+	}
 
 	replayExec = ex
 	replayFns = ld.Fns
